@@ -745,7 +745,7 @@ class Executor:
                 return LObjField(o, name, ty, sp=True)
             if pt in ('PyObject', '_object'):
                 return LObjField(o, 'py.' + name, ty)
-            if pt == 'PyTupleObject' and name == 'ob_item':
+            if pt in ('PyTupleObject', 'PyListObject') and name == 'ob_item':
                 return LObjField(o, 'ob_item', ty)
             if pt == 'matrix' or True:
                 pass
@@ -786,7 +786,23 @@ class Executor:
             _, o, iv = loc
             i = z3.simplify(iv.t)
             if not z3.is_int_value(i):
-                raise Unsupported('symbolic tuple index')
+                # an item at a symbolic position of a list/tuple: some object
+                # (named by the site and by how often the path has been
+                # there), provided the position is inside the sequence
+                ln = o.extra.get('seqlen')
+                if ln is None:
+                    ln = o.extra.setdefault('tuplen', z3.Int('len(%s)' %
+                                                             o.name))
+                self.oblige(st, 'deref', z3.And(iv.t >= 0, iv.t < ln), n,
+                            text='item index inside the sequence: ' +
+                            cast_mod.src_of(self.tu, n))
+                key = ('seqitem', o.name, n.get('line'),
+                       (n.get('off') or (0, 0))[0])
+                cnt = st.ghost.get(key, 0)
+                st.ghost[key] = cnt + 1
+                nm = '%s[@%s.%s#%d]' % (o.name, key[2], key[3], cnt)
+                it = self.objs.get(nm) or self.new_obj(nm)
+                return PtrV(None, 0, 'PyObject', obj=it)
             key = 'item%d' % i.as_long()
             it = o.extra.get(key)
             if it is None:
@@ -1905,7 +1921,8 @@ class Executor:
         elif n.get('kind') == 'MemberExpr' and not n.get('isArrow'):
             self.lhs_vars(n['inner'][0], out)
 
-    def default_loop(self, s, st, links=None, probe=True, drop=()):
+    def default_loop(self, s, st, links=None, probe=True, drop=(),
+                     bounds=()):
         """Invariant rule with automatic invariants.  Everything assigned in
         the loop is havoced.  Counting loops `for (c = a; c < b; c++)` whose
         counter is not assigned in the body get a <= c (c < b in the body,
@@ -1995,6 +2012,10 @@ class Executor:
                         t_ = v0 + (new[counter] - lows[counter]) * d
                         state.vars[rid] = IntV(t_, state.vars[rid].ty)
                         new[rid] = t_
+            for (rid, op_, K) in bounds:
+                if rid in new:
+                    state.pc.append(new[rid] >= K if op_ == 'ge'
+                                    else new[rid] <= K)
             return new
 
         if links is None or probe:
@@ -2003,9 +2024,11 @@ class Executor:
                                     self.has_call(body)):
             guess, dropped = self.probe_links(st, assigned, lows, counter,
                                               havoc, cond, body, inc)
-            if guess or dropped:
+            bnds = self.probe_bounds(st, assigned, lows, counter, guess,
+                                     dropped, cond, body, inc, s0, st0)
+            if guess or dropped or bnds:
                 return self.default_loop(s0, st0, links=guess, probe=False,
-                                         drop=dropped)
+                                         drop=dropped, bounds=bnds)
         results = []
         # arbitrary iteration
         b = st.copy()
@@ -2023,9 +2046,10 @@ class Executor:
                             self.ev(inc, o.st)
                         except NeedFork:
                             pass
-                    if links and counter in start:
+                    if (links and counter in start) or bounds:
                         # the guessed invariants must be preserved
-                        for rid, (v0, d) in links.items():
+                        for rid, (v0, d) in (links.items() if counter in
+                                             start else ()):
                             ve = o.st.vars.get(rid)
                             ce = o.st.vars.get(counter)
                             if rid == counter or not isinstance(ve, IntV) \
@@ -2038,7 +2062,19 @@ class Executor:
                                 del bad[rid]
                                 return self.default_loop(
                                     s0, st0, links=bad, probe=False,
-                                    drop=drop)
+                                    drop=drop, bounds=bounds)
+                        for (rid, op_, K) in bounds:
+                            ve = o.st.vars.get(rid)
+                            if not isinstance(ve, IntV):
+                                continue
+                            inv = ve.t >= K if op_ == 'ge' else ve.t <= K
+                            if self.check(o.st.path(), [z3.Not(inv)]) != \
+                                    z3.unsat:
+                                return self.default_loop(
+                                    s0, st0, links=links, probe=False,
+                                    drop=drop, bounds=tuple(
+                                        b_ for b_ in bounds
+                                        if b_ != (rid, op_, K)))
                     results.append(Outcome('dropped', o.st))
                 elif o.kind == 'break':
                     results.append(Outcome('fall', o.st))
@@ -2187,6 +2223,97 @@ class Executor:
             return {}, ()
         finally:
             self._fresh_log = old_log
+            if hasattr(self, 'orphans'):
+                del self.orphans[saved[0]:]
+            if hasattr(self, 'abandoned'):
+                del self.abandoned[saved[1]:]
+
+    def probe_bounds(self, st, assigned, lows, counter, links, dropped, cond,
+                     body, inc, s0, st0):
+        """Houdini over constant bounds: for a variable that enters the loop
+        with a literal value k the candidates v >= k, v <= K (K in {k, 0, 1,
+        2, 3}) are assumed together at the loop head, the body is executed
+        (obligations thrown away) and every candidate that is not implied at
+        the end of the body is dropped, until none is dropped.  The survivors
+        are inductive; they are checked again in the run that counts."""
+        cands = []
+        for rid, (nm, ty) in assigned.items():
+            if rid == counter or rid in (links or {}):
+                continue
+            v0 = st.vars.get(rid)
+            if not isinstance(v0, IntV):
+                continue
+            k = z3.simplify(v0.t)
+            if not z3.is_int_value(k):
+                continue
+            k = k.as_long()
+            cands.append((rid, 'ge', k))
+            for K in sorted(set([k, 0, 1, 2, 3])):
+                if K >= k:
+                    cands.append((rid, 'le', K))
+        if not cands:
+            return ()
+        saved = (len(getattr(self, 'orphans', []) or []),
+                 len(getattr(self, 'abandoned', []) or []))
+        try:
+            for _round in range(5):
+                b = st.copy()
+                for k_ in dropped:
+                    b.ghost.pop(k_, None)
+                new = {}
+                for rid, (nm, ty) in assigned.items():
+                    old = b.vars.get(rid)
+                    if isinstance(old, (IntV, BoolV)):
+                        nv = self.fresh_int('loop_' + nm, CT(ty).s if CT(
+                            ty).s in ('int', 'long', 'char') else
+                            TYPEDEF_INT.get(CT(ty).s, 'int'))
+                        b.vars[rid] = IntV(nv.t, ty)
+                        new[rid] = nv.t
+                        if rid in lows:
+                            b.pc.append(nv.t >= lows[rid])
+                    elif isinstance(old, FltV):
+                        b.vars[rid] = FltV(self.fresh_real('loop_' + nm),
+                                           old.ty)
+                    elif isinstance(old, StructV):
+                        b.vars[rid] = StructV(old.ty)
+                    elif isinstance(old, PtrV):
+                        b.vars[rid] = PtrV(old.region, self.fresh_int(
+                            'loop_off_' + nm, 'long').t, old.ty, old.null,
+                            old.obj)
+                for (rid, op_, K) in cands:
+                    if rid in new:
+                        b.pc.append(new[rid] >= K if op_ == 'ge'
+                                    else new[rid] <= K)
+                c = tobool(self.ev(cond, b)) if cond.get('kind') != \
+                    'NullStmt' else z3.BoolVal(True)
+                if self.check(b.path(), [c]) == z3.unsat:
+                    return ()
+                b.pc.append(c)
+                bad = set()
+                for o in self.exec_stmt(body, b):
+                    if o.kind not in ('fall', 'continue'):
+                        continue
+                    if inc is not None and inc.get('kind') != 'NullStmt':
+                        self.ev(inc, o.st)
+                    for cd in cands:
+                        rid, op_, K = cd
+                        ve = o.st.vars.get(rid)
+                        if not isinstance(ve, IntV):
+                            bad.add(cd)
+                            continue
+                        inv = ve.t >= K if op_ == 'ge' else ve.t <= K
+                        if self.check(o.st.path(), [z3.Not(inv)]) != \
+                                z3.unsat:
+                            bad.add(cd)
+                if not bad:
+                    return tuple(cands)
+                cands = [c_ for c_ in cands if c_ not in bad]
+                if not cands:
+                    return ()
+            return ()
+        except (Unsupported, NeedFork, Impure, NeedInline):
+            return ()
+        finally:
             if hasattr(self, 'orphans'):
                 del self.orphans[saved[0]:]
             if hasattr(self, 'abandoned'):
